@@ -401,6 +401,15 @@ def run(run):
         run.nontrivial(("fake", str(sets), str(sorted(failing)), post, objective, net.eq(), str(stop)))
         if r:
             results.append(r)
+    # budgets smaller than the window of in-flight trials (max_repeats < pre_dispatch): exactly max_repeats trials are run
+    for M_small in ((1, 2, 3, 4) if quick else (1, 1, 2, 2, 3, 3, 4, 4, 5, 6)):
+        net = rng.choice(pool_nets)
+        sets = [set(range(1, 12)) for _ in range(12)]        # every submitted trial is finished when polled
+        r = one_run(run, ct, net, "fake", sets, set(), "none", rng.choice(OBJECTIVES[:4]), rng.randrange(10**6), M_small)
+        run.count()
+        run.nontrivial(("fake-small-budget", M_small, net.eq()))
+        if r:
+            results.append(r)
     # serial: every objective x post-processing set
     combos = [(o, p) for o in OBJECTIVES for p in POSTS]
     if quick:
